@@ -40,12 +40,29 @@ Definition session_input (thr tol : Qc) (ms : list (smod Qc)) (nets : list net) 
 Definition maxabs (v : list Qc) : Qc := fold_right (fun x m => Qcmax (Qcabs x) m) 0 v.
 
 (* [c] = the row at the start of the iteration (the output of the previous normalize call), [v_obs] = the row
-   handed to the next normalize call.  The model's row must be the observed one.  Where the spread of the new
-   row is within a factor 2 of epsilon the path taken is decided by the last bits: either path is accepted.
-   A row that vanishes EXACTLY under orthogonalisation (ZeroDivisionError in the model) leaves an arbitrary
-   1e-16 residue in binary64: not compared. *)
-Definition iter_ok (atol eps tol : Qc) (adj : adjlist) (mass : list Qc) (fx : list bool)
-           (prev : list (list Qc)) (c v_obs : list Qc) : bool :=
+   handed to the next normalize call, [c'] = what that call returned.
+   1. The model's row [iter_vec] must be the observed one.  Where the spread of the new row is within a factor 2
+      of epsilon the path taken is decided by the last bits: either path is accepted.
+   2. The convergence test after the iteration: the loop goes on iff the normalised dot product of the
+      orthogonalised row and the new row is outside [1 - eps, 1 + eps].  [last] = no further iteration was observed;
+      [limit] = the iteration limit was reached (then the test does not matter).  Not compared within eps/10000 of a
+      bound, nor when the orthogonalised row is 1000 times smaller than the row (cancellation).
+   A row that vanishes EXACTLY under orthogonalisation (ZeroDivisionError in the model) leaves an arbitrary 1e-16
+   residue in binary64: not compared.  (vm_compute is strict: the alternatives sit in branches of [if].) *)
+Definition stop_part (eps : Qc) (fm c co c' : list Qc) (last limit : bool) : bool :=
+  if Qcltb (maxabs co * qc 1000 1) (maxabs c) then true else
+  match abs_norm_dot_product co c' fm with
+  | Ok dp =>
+      let band := eps * qc 1 10000 in
+      if Qcltb (Qcabs (dp - (1 - eps))) band then true
+      else if Qcltb (Qcabs (dp - (1 + eps))) band then true
+      else if last then (if limit then true else negb (goes_on eps dp)) else goes_on eps dp
+  | ZeroDiv => true
+  | _ => false
+  end.
+
+Definition step_ok (atol eps tol : Qc) (adj : adjlist) (mass : list Qc) (fx : list bool)
+           (prev : list (list Qc)) (c v_obs c' : list Qc) (last limit : bool) : bool :=
   let fm := float_mass mass fx in
   let deg := degrees adj in
   let try e := match iter_vec atol e adj deg fm fx prev c with
@@ -53,29 +70,9 @@ Definition iter_ok (atol eps tol : Qc) (adj : adjlist) (mass : list Qc) (fx : li
                | _ => false
                end in
   match iter_vec atol eps adj deg fm fx prev c with
-  | Ok (_, v) => list_eqb (aclose tol) v v_obs || try (eps * qc 2 1) || try (eps * half)
-  | ZeroDiv => true
-  | _ => false
-  end.
-
-(* the convergence test after the iteration c -> c': the loop goes on iff the normalised dot product of the
-   orthogonalised row and the new row is outside [1 - eps, 1 + eps].  [last] = no further iteration was
-   observed; [limit] = the iteration limit was reached (then the test does not matter).  Not compared within
-   eps/10000 of a bound, nor when the orthogonalised row is 1000 times smaller than the row (cancellation). *)
-Definition stop_ok (atol eps : Qc) (mass : list Qc) (fx : list bool) (prev : list (list Qc))
-           (c c' : list Qc) (last limit : bool) : bool :=
-  let fm := float_mass mass fx in
-  match ortho_loop atol prev c fm fx with
-  | Ok co =>
-      if Qcltb (maxabs co * qc 1000 1) (maxabs c) then true else
-      match abs_norm_dot_product co c' fm with
-      | Ok dp =>
-          let band := eps * qc 1 10000 in
-          if Qcltb (Qcabs (dp - (1 - eps))) band || Qcltb (Qcabs (dp - (1 + eps))) band then true
-          else if last then limit || negb (goes_on eps dp) else goes_on eps dp
-      | ZeroDiv => true
-      | _ => false
-      end
+  | Ok (co, v) =>
+      if (if list_eqb (aclose tol) v v_obs then true else if try (eps * qc 2 1) then true else try (eps * half))
+      then stop_part eps fm c co c' last limit else false
   | ZeroDiv => true
   | _ => false
   end.
